@@ -136,12 +136,12 @@ func c04Prepare(caseID int, idx int, behaviour, proto, launch string, managed, p
 		go cli.Do("sleep", "ms", 10000)
 		time.Sleep(150 * time.Millisecond)
 	case "frozen":
-		syscall.Kill(s.obs.Pid, syscall.SIGSTOP)
+		killOurs(s.obs.Pid, syscall.SIGSTOP)
 		if st := waitState(s.obs.Pid, 5*time.Second, "T"); st != "T" {
 			s.obs.SetupErr = "could not freeze plugin, state " + st
 		}
 	case "crashed":
-		syscall.Kill(s.obs.Pid, syscall.SIGKILL)
+		killOurs(s.obs.Pid, syscall.SIGKILL)
 		waitState(s.obs.Pid, 5*time.Second, "gone", "Z")
 		time.Sleep(50 * time.Millisecond)
 	}
